@@ -4,6 +4,9 @@
   OUT-CAP   every write of n bytes through an (out, *out_len) parameter pair is preceded by a proof that n fits *out_len
   OUT-GATE  every write through the output of a decryption function is dominated by the authentication / padding
             gates recorded for it in sa/tables/c06_gates.json
+  ENC-RANGE an integer plaintext is found strictly below a bound before an encryption succeeds
+  DEC-RANGE the integer decoded from the ciphertext bytes is compared with the modulus before its first arithmetic use
+  OUT-CLEAN no output event of a decryption function is reachable after its status was set to the error value
   FAIL-ERR  once an authentication, padding or inner-decryption check has failed, no path returns RLC_OK
   STATUS-USE (shared with C05) statuses of padding checkers and of the inner cipher are consumed
 """
@@ -348,18 +351,186 @@ def rule_check_dead(ctx, prog, chk):
     return n
 
 
+# ---------------------------------------------------------------------- OUT-CLEAN
+def rule_out_clean(ctx, prog, chk):
+    """OUT-CLEAN: a decryption function does not write through its output (nor announce a length through *out_len) on a
+    path on which it has already set its status to the error value: "rejected with an error rather than returning data".
+    A must-fact `clean` holds from the entry and is dropped by every assignment of a non-zero constant to the returned
+    status variable; it has to hold at every output event"""
+    n = 0
+    for fn in dec_functions(prog):
+        vv = c05.verdict_var(fn)
+        if vv is None or not out_pairs(fn):
+            continue
+        g = ctx.xcfg(prog, fn)
+
+        def kill(node, s, fn=fn, vv=vv):
+            for sub in ir.walk(fn, node.el.e):
+                if sub[0] == "=" and ir.strip_casts(sub[1]) == ["v", vv]:
+                    r = ir.peel(fn, sub[2])
+                    if not (isinstance(r, list) and r[0] == "i" and r[1] == 0):
+                        return frozenset(x for x in s if x != ("ev", "clean"))
+            return s
+        F = Facts(prog, g, init=(("ev", "clean"),), extra_kill=kill, mark_thrown=False)
+        evs = output_events(prog, fn, g, F)
+        if not evs:
+            continue
+        n += 1
+        # ... or the status has just been tested to be the success value on the way to the event
+        bad = [(nd, txt) for nd, txt, _ in evs if ("ev", "clean") not in (F.IN.get(nd) or ()) and not engines.holds_cmp(F.IN.get(nd) or (), ("v", vv), "==", 0)]
+        if bad:
+            nd, txt = bad[0]
+            chk.fail("OUT-CLEAN", fn, fn.vars[vv]["n"], "output is produced (%s) on a path on which `%s` has already been set to the error value: the caller gets an error *and* data" % (
+                txt, fn.vars[vv]["n"]), line=nd.line())
+        else:
+            chk.ok("OUT-CLEAN", fn, fn.vars[vv]["n"], "no output event is reachable after the status was set to the error value (%d events)" % len(evs), line=fn.line)
+    return n
+
+
+# ---------------------------------------------------------------------- ENC-RANGE
+# encryption functions with an integer plaintext: (plaintext parameter, kind).  cp_ghpe_enc is left out: its bound n^s is not
+# available without an exponentiation and the scheme is recorded as wrong for s >= 3 (seeded/ROUND3-OBSERVATIONS.md)
+ENC_PLAIN = {"cp_phpe_enc": ("m", "bn"), "cp_shpe_enc": ("m", "bn"), "cp_shpe_enc_prv": ("m", "bn"), "cp_bdpe_enc": ("in", "dig")}
+
+
+def rule_enc_range(ctx, prog, chk):
+    """ENC-RANGE: an encryption function with an integer plaintext returns normally with success only where the plaintext was
+    found *strictly* smaller than a bound (bn_cmp(m, n) == RLC_LT, in < t): a plaintext equal to or beyond the modulus of
+    the plaintext space encrypts to something that decrypts to another plaintext - "decryption returns exactly the
+    plaintext, for every plaintext the scheme admits" needs the others to be refused"""
+    n = 0
+    for fn in prog.all:
+        b = fn.name.split("__")[-1]
+        if b not in ENC_PLAIN:
+            continue
+        pname, kind = ENC_PLAIN[b]
+        pv = [p for p in fn.params if fn.vars[p]["n"] == pname]
+        if not pv:
+            raise AnalysisBroken("ENC-RANGE: %s has no parameter `%s` any more; the table must be re-read" % (fn.name, pname))
+        P = ("v", pv[0])
+        g = ctx.xcfg(prog, fn)
+
+        def edge_gen(node, label, atoms, P=P, kind=kind):
+            out = []
+            for a in atoms:
+                if kind == "bn" and a[0] == "cmp" and isinstance(a[1], tuple) and a[1][0] == "c" and a[1][1] == "bn_cmp" and len(a[1][2]) == 2 and a[1][2][0] == P \
+                        and engines.entails(a[2], a[3], "==", -1):
+                    out.append(("ev", "below"))
+                if kind == "dig" and a[0] == "rel" and ((a[1] == P and a[2] == "<") or (a[3] == P and a[2] == ">")):
+                    out.append(("ev", "below"))
+            return out
+        F = Facts(prog, g, edge_gen=edge_gen, mark_thrown=True)
+        vv = c05.verdict_var(fn)
+        bad = None
+        nret = 0
+        for nd in g.nodes:
+            if nd.kind != "el" or nd.proto or nd.el.e[0] != "ret" or nd.el.e[1] is None:
+                continue
+            st = F.IN.get(nd)
+            if st is None or st is engines.UNIVERSE:
+                continue
+            rv = ir.peel(fn, nd.el.e[1])
+            if isinstance(rv, list) and rv[0] == "i" and rv[1] != 0:
+                continue        # a literal error status
+            if vv is not None and engines.holds_cmp(st, ("v", vv), "!=", 0):
+                continue
+            nret += 1
+            if ("ev", "below") not in st:
+                bad = nd
+        if nret == 0:
+            raise AnalysisBroken("ENC-RANGE: %s has no successful return" % fn.name)
+        n += 1
+        if bad is None:
+            chk.ok("ENC-RANGE", fn, pname, "every successful return has found the plaintext strictly below a bound", line=fn.line)
+        else:
+            chk.fail("ENC-RANGE", fn, pname, "a successful return is reachable without `%s` having been found strictly smaller than the modulus of the plaintext space "
+                     "(a comparison of bit lengths, or `>` for `>=`, admits plaintexts that decrypt to something else)" % pname, line=c05_line_safe(bad, fn))
+    return n
+
+
+def c05_line_safe(node, fn):
+    try:
+        return node.line()
+    except Exception:
+        return fn.line
+
+
+# ---------------------------------------------------------------------- DEC-RANGE
+NEUTRAL_FOR_RANGE = re.compile(r"^(bn_cmp|bn_cmp_abs|bn_cmp_dig|bn_read_bin|bn_bits|bn_size_bin|bn_is_zero|bn_sign|bn_new|bn_null|bn_free|bn_print)$")
+
+
+def rule_dec_range(ctx, prog, chk):
+    """DEC-RANGE: the integer a decryption function decodes from the ciphertext bytes has been found smaller than something
+    (the modulus) by bn_cmp before it is used in any arithmetic: c and c + n are the same residue, so without the test
+    every ciphertext has further encodings that decrypt to the same plaintext instead of being rejected (RFC 8017 5.1.2:
+    "ciphertext representative out of range")"""
+    n = 0
+    for fn in dec_functions(prog):
+        bytes_in = [p for p in fn.params if fn.vars[p].get("pc") == 1 and re.search(r"(unsigned char|uint8_t) \*", fn.vars[p].get("c") or fn.vars[p]["t"])]
+        if not bytes_in:
+            continue
+        g = ctx.xcfg(prog, fn)
+
+        def gen(node, s, pre, fn=fn, bytes_in=bytes_in):
+            out = []
+            for c in ir.calls_in(fn, node.el.e):
+                if c[1] == "bn_read_bin" and len(c[2]) == 3 and ir.base_var(fn, c[2][1]) in bytes_in:
+                    X = key(fn, c[2][0])
+                    if isinstance(X, tuple) and X[0] == "v":
+                        out.append(("ev", "dec", X))
+            return out
+
+        def edge_gen(node, label, atoms, fn=fn):
+            st = engines.CURRENT.edge_state if engines.CURRENT is not None else frozenset()
+            out = []
+            for a in atoms:
+                if a[0] == "cmp" and isinstance(a[1], tuple) and a[1][0] == "c" and a[1][1] == "bn_cmp" and len(a[1][2]) == 2 and engines.entails(a[2], a[3], "==", -1):
+                    X = a[1][2][0]
+                    if ("ev", "dec", X) in st:
+                        out.append(("ev", "ranged", fn.vars[X[1]]["n"]))
+            return out
+        F = Facts(prog, g, gen=gen, edge_gen=edge_gen, mark_thrown=True)
+        decoded = set()
+        for nd in g.nodes:
+            if nd.kind == "el" and not nd.proto:
+                decoded |= set(a[2] for a in gen(nd, frozenset(), frozenset()))
+        for X in sorted(decoded):
+            n += 1
+            bad = None
+            for nd in g.nodes:
+                if nd.kind != "el" or nd.proto:
+                    continue
+                st = F.IN.get(nd)
+                if st is None or st is engines.UNIVERSE or ("ev", "dec", X) not in st:
+                    continue
+                for c in ir.calls_in(fn, nd.el.e):
+                    if not c[1] or NEUTRAL_FOR_RANGE.match(c[1]):
+                        continue
+                    if any(key(fn, a) == X for a in c[2][1:]) and ("ev", "ranged", fn.vars[X[1]]["n"]) not in st:
+                        bad = bad or (nd, fn.fmt(c)[:50])
+            nm = fn.vars[X[1]]["n"]
+            if bad is None:
+                chk.ok("DEC-RANGE", fn, nm, "the decoded ciphertext representative is compared with the modulus before its first arithmetic use", line=fn.line)
+            else:
+                chk.fail("DEC-RANGE", fn, nm, "`%s` uses the integer decoded from the ciphertext before any bn_cmp has found it smaller than the modulus: c + n decrypts like c "
+                         "instead of being rejected" % bad[1], line=bad[0].line())
+    return n
+
+
 def analyse(ctx, prog, chk, table=None):
     chk.used_program(prog)
     table = table if table is not None else load_table()
     return {"len_sub": rule_len_sub(ctx, prog, chk), "out_cap": rule_out_cap(ctx, prog, chk),
             "out_gate": rule_out_gate(ctx, prog, chk, table), "fail_err": rule_fail_err(ctx, prog, chk),
-            "check_dead": rule_check_dead(ctx, prog, chk)}
+            "check_dead": rule_check_dead(ctx, prog, chk), "out_clean": rule_out_clean(ctx, prog, chk), "dec_range": rule_dec_range(ctx, prog, chk), "enc_range": rule_enc_range(ctx, prog, chk)}
 
 
 def selfcheck(ctx, prog, chk):
     table = {}
     for fn in dec_functions(prog):
-        table[fn.name.split("__")[-1]] = {"gates": [["util_cmp_sec(*,*,32)", "==", 0]]}
+        b = fn.name.split("__")[-1]
+        # cp_sr_dec: the miniatures of OUT-CLEAN / DEC-RANGE have no authentication gate
+        table[b] = {"gates": [] if b == "cp_sr_dec" else [["util_cmp_sec(*,*,32)", "==", 0]]}
     analyse(ctx, prog, chk, table)
 
 
@@ -370,4 +541,7 @@ def run(ctx, chk):
     chk.floor("OUT-CAP", "writes through (out, *out_len) pairs", c["out_cap"], 12)
     chk.floor("OUT-GATE", "recorded gates", c["out_gate"], 2)
     chk.floor("FAIL-ERR", "decryption functions with a check", c["fail_err"], 2)
+    chk.floor("ENC-RANGE", "encryption functions with an integer plaintext", c["enc_range"], 4)
+    chk.floor("DEC-RANGE", "integers decoded from ciphertext bytes", c["dec_range"], 2)
+    chk.floor("OUT-CLEAN", "decryption functions with a status and an output", c["out_clean"], 3)
     chk.floor("CHECK-DEAD", "check outcomes stored in locals", c["check_dead"], 3)
